@@ -245,15 +245,23 @@ class Hang(Exception):
 
 
 def with_timeout(fn, seconds=5):
+    """Watchdog for an implementation call.  The budget is PROCESS CPU TIME (ITIMER_PROF), so a
+    loaded machine cannot turn a slow-but-terminating call into a false "hang"; a spinning loop
+    burns CPU and is stopped after `seconds` of it.  A generous wall-clock alarm remains as a
+    backstop for calls that block without using CPU."""
     def _h(sig, frm):
         raise Hang()
-    old = signal.signal(signal.SIGALRM, _h)
-    signal.alarm(seconds)
+    old_prof = signal.signal(signal.SIGPROF, _h)
+    old_alrm = signal.signal(signal.SIGALRM, _h)
+    signal.setitimer(signal.ITIMER_PROF, float(seconds))
+    signal.alarm(int(max(120, seconds * 40)))
     try:
         return fn()
     finally:
+        signal.setitimer(signal.ITIMER_PROF, 0)
         signal.alarm(0)
-        signal.signal(signal.SIGALRM, old)
+        signal.signal(signal.SIGPROF, old_prof)
+        signal.signal(signal.SIGALRM, old_alrm)
 
 
 # --------------------------------------------------------------------------------------
